@@ -27,6 +27,9 @@ pub struct Case {
     /// every weight of the history is multiplied by 10^weight_exp (any finite weight >= 0 is legal)
     #[serde(default)]
     pub weight_exp: i8,
+    /// every value of the history is multiplied by 10^value_exp
+    #[serde(default)]
+    pub value_exp: i8,
 }
 
 pub struct C16;
@@ -110,6 +113,7 @@ impl Check for C16 {
         let mut zero_inserts = 0u32;
         let mut max_fusion = false;
         let wunit = 10f64.powi(c.weight_exp as i32);
+        let vunit = 10f64.powi(c.value_exp as i32);
         let ok = |x: f64, w: f64| x.is_finite() && w.is_finite() && w > 0.0 && (x * w).is_finite() && (x == 0.0 || (x * w).abs() > 1e-290);
         macro_rules! twin_eq {
             ($step:expr, $what:expr, $a:expr, $b:expr) => {{
@@ -122,6 +126,7 @@ impl Check for C16 {
         for (step, op) in c.ops.iter().enumerate() {
             match op {
                 Op::Insert(x) => {
+                    let x = &(*x * vunit);
                     if !x.is_finite() {
                         continue;
                     }
@@ -131,6 +136,7 @@ impl Check for C16 {
                 }
                 Op::InsertW(x, w) => {
                     let w = &(*w * wunit);
+                    let x = &(*x * vunit);
                     if !ok(*x, *w) {
                         continue;
                     }
@@ -141,13 +147,14 @@ impl Check for C16 {
                 Op::Block { n, lo, span, seed } => {
                     let mut g = stat::SplitMix64(*seed);
                     for _ in 0..*n {
-                        let x = lo + span * g.f64();
+                        let x = (lo + span * g.f64()) * vunit;
                         d.insert(x);
                         twin.insert(x);
                         t.add(x, 1.0);
                     }
                 }
                 Op::ZeroW(x) => {
+                    let x = &(*x * vunit);
                     if !x.is_finite() {
                         continue;
                     }
@@ -231,8 +238,9 @@ fn strategy(tier: Tier) -> BoxedStrategy<Case> {
         1 => Just(Op::Clear),
     ];
     let weight_exp = prop_oneof![3 => Just(0i8), 1 => -30i8..=30, 1 => prop_oneof![Just(-20i8), Just(-17), Just(-16), Just(20)]];
-    (scale(), delta_strategy(), backlog_strategy(), prop::collection::vec(op, 0..maxops), weight_exp)
-        .prop_map(|(scale, delta, backlog, ops, weight_exp)| {
+    let value_exp = prop_oneof![4 => Just(0i8), 1 => -30i8..=30];
+    (scale(), delta_strategy(), backlog_strategy(), prop::collection::vec(op, 0..maxops), weight_exp, value_exp)
+        .prop_map(|(scale, delta, backlog, ops, weight_exp, value_exp)| {
             // a rescaled history uses weighted inserts only (a unit weight would drown 1e-20 in rounding)
             let ops = if weight_exp != 0 {
                 ops.into_iter()
@@ -245,7 +253,7 @@ fn strategy(tier: Tier) -> BoxedStrategy<Case> {
             } else {
                 ops
             };
-            Case { scale, delta, backlog, ops, weight_exp }
+            Case { scale, delta, backlog, ops, weight_exp, value_exp }
         })
         .boxed()
 }
